@@ -260,7 +260,10 @@ def d2_d3(ctx, rep):
                 for te, ae in zip(lp.target.elts, it.args):
                     if isinstance(ae, ast.Call) and call_name(ae) == 'range' and len(ae.args) == 1 and isinstance(te, ast.Name):
                         kv, counted = te.id, ae.args[0]
-            if not uncond:
+            if not uncond and not (is_range or counted is not None):
+                rep.undecided('D2.edges', fn, it, f'{clsn}.{meth}: the edge loop runs over `{short(it, 40)}` and is left by a test inside it: the number of edges is not derived',
+                              construct=f'{clsn}.{meth} edge count')
+            elif not uncond:
                 rep.bad('D2.edges', fn, it, f'{clsn}.{meth}: the append is conditional / the loop can be left early: the tree does not get n_nodes - 1 edges', construct=f'{clsn}.{meth} edge count')
             elif is_range:
                 rep.check('D2.edges', fn, it, is_nodes_minus_one(prog, fn, counted), f'{clsn}.{meth}: one unconditional append per iteration of range(n_nodes - 1)',
@@ -425,7 +428,11 @@ def d4(ctx, rep):
         rep.check('D4.child', gc, dst[0] if dst else gc.node.name, bool(dst) and isinstance(dst[0].value, ast.Name) and len(names3) == 3 and dst[0].value.id == names3[2],
                   'D = the identified conditioning set', 'the conditioning set of the child edge is not the identified one', construct='child edge D')
         pst = [s for s in walk_no_nested(gc.node) if isinstance(s, ast.Assign) and isinstance(s.targets[0], ast.Attribute) and s.targets[0].attr == 'parents']
-        okp = bool(pst) and isinstance(pst[0].value, (ast.List, ast.Tuple)) and [getattr(e, 'id', None) for e in pst[0].value.elts] == gc.params[2:4]
+        pv = pst[0].value if pst else None
+        if isinstance(pv, ast.Name):
+            d_ = single_def(gc.node, pv.id)       # parents = [left_parent, right_parent] (possibly re-ordered in place afterwards)
+            pv = d_ if isinstance(d_, ast.AST) else pv
+        okp = bool(pst) and isinstance(pv, (ast.List, ast.Tuple)) and [getattr(e, 'id', None) for e in pv.elts] == gc.params[2:4]
         rep.check('D4.child', gc, pst[0] if pst else gc.node.name, okp, 'parents = [left_parent, right_parent]', 'both parents are not recorded in order', construct='child edge parents')
 
 
